@@ -53,7 +53,8 @@ def case_(draw, tier):
     return {"P": P, "order": order, "L": L, "N": N, "b0": b0, "offs": offs, "A": draw(gens.loguniform(1e-3, 1e3)),
             "phi": draw(st.floats(0, 2 * math.pi)), "fs": draw(st.sampled_from([1.0, 2.0, 1000.0, 0.3])),
             "backend": draw(st.sampled_from(["numba", "numba", "numpy"])),
-            "win": draw(st.sampled_from(["kaiser", "np.kaiser", "sp.kaiser"])), "olap": draw(st.sampled_from(["default", 0.0, 0.5]))}
+            "win": draw(st.sampled_from(["kaiser", "np.kaiser", "sp.kaiser"])), "olap": draw(st.sampled_from(["default", 0.0, 0.5])),
+            "fres_jitter": draw(st.sampled_from([0.0, 0.0, 0.3, -0.4, 0.45]))}
 
 
 def oracle(case):
@@ -74,8 +75,13 @@ def oracle(case):
     W0 = float(np.sum(w))
     nn = np.arange(L)
 
+    jit = case.get("fres_jitter")
+
     def pq(b):
-        r = anq.compute_single_bin(b * fs / L, L=L)
+        if jit:      # the same segment length requested through a resolution whose fs/fres is not an integer
+            r = anq.compute_single_bin(b * fs / L, fres=fs / (L + jit))
+        else:
+            r = anq.compute_single_bin(b * fs / L, L=L)
         XX, YY, XY = float(r.XX[0]), float(r.YY[0]), complex(r.XY[0])
         return XX + YY + 2 * XY.imag, XX + YY - 2 * XY.imag
 
